@@ -8,6 +8,7 @@ into names, residues, header lines, keywords and at the end of the input, in fil
 a good part of the cases SUCCEEDS: the cells of one alignment column are chosen with the same written length), and into
 the seed files of c03.py at token boundaries.
 """
+import re
 from driver.common import Case
 from driver import fmtgen as G
 
@@ -164,6 +165,39 @@ KEYWORD_FILES = {
 }
 
 
+FOLD_KW = re.compile(rb"#nexus|begin|data|characters|taxlabels|taxa|trees|tree|dimensions|ntax|nchar|format|datatype|missing|"
+                     rb"matchchar|gap|matrix|endblock|end|clustalw|clustal|stockholm", re.I)
+FOLD = {ord("s"): b"\xc5\xbf", ord("S"): b"\xc5\xbf", ord("i"): b"\xc4\xb1", ord("I"): b"\xc4\xb1"}
+
+
+def fold_spell(data, spans):
+    """`data` with every s / S / i / I inside the byte spans written as U+017F / U+0131 (strings.ToUpper maps them back to S / I,
+    so a keyword spelled this way still is the keyword)"""
+    out, pos = [], 0
+    for a, b in spans:
+        out.append(data[pos:a])
+        out.append(b"".join(FOLD.get(c, bytes([c])) for c in data[a:b]))
+        pos = b
+    out.append(data[pos:])
+    return b"".join(out)
+
+
+def fold_keyword_variants(rng, data, thorough):
+    """(tag, bytes): keywords of a Clustal / Stockholm / Nexus file spelled with the fold runes - all of them, one at a time,
+    one letter at a time; and the fold runes everywhere (names and residues too: there they are ordinary bytes >= 128)"""
+    spans = [m.span() for m in FOLD_KW.finditer(data) if any(c in FOLD for c in m.group())]
+    if not spans:
+        return
+    yield "all-keywords", fold_spell(data, spans)
+    one = spans if thorough else rng.sample(spans, min(3, len(spans)))
+    for a, b in one:
+        yield "one-keyword", fold_spell(data, [(a, b)])
+        letters = [k for k in range(a, b) if data[k] in FOLD]
+        for k in (letters if thorough else letters[:1]):
+            yield "one-letter", fold_spell(data, [(k, k + 1)])
+    yield "everywhere", fold_spell(data, [(0, len(data))])
+
+
 def cases(rng, tier, seedfiles, popts_all, popts_default, boundaries):
     """`seedfiles`: (fmt, strict, bytes, header_len, tag) of c03.py"""
     thorough = tier != "quick"
@@ -193,6 +227,15 @@ def cases(rng, tier, seedfiles, popts_all, popts_default, boundaries):
                 yield Case("parse", [fmt, o, G.hx(data)], True, "%s:utf8-handwritten" % fmt)
             for k in range(max(0, len(data) - 8), len(data)):
                 yield Case("parse", [fmt, popts_default(fmt, 0), G.hx(data[:k])], True, "%s:utf8-handwritten-truncated" % fmt)
+    # 2b. seed files of the three formats with a keyword table: keywords spelled with U+017F / U+0131
+    for fmt, strict, data, hdr, tag in seedfiles:
+        if fmt in ("clustal", "stockholm", "nexus"):
+            for t, d in dict.fromkeys(fold_keyword_variants(rng, data, thorough)):
+                yield Case("parse", [fmt, popts_default(fmt, strict), G.hx(d)], True, "%s:utf8-fold-%s" % (fmt, t))
+                if t == "all-keywords":
+                    yield Case("auto", [0, G.hx(d)], True, "auto:utf8-fold-%s" % t)
+                    for k in sorted(rng.sample(range(len(d)), min(len(d), 12 if not thorough else 60))):
+                        yield Case("parse", [fmt, popts_default(fmt, strict), G.hx(d[:k])], True, "%s:utf8-fold-truncated" % fmt)
     # 3. seed files: a chunk inserted at / substituted for the byte at a token boundary, appended at the end
     for fmt, strict, data, hdr, tag in seedfiles:
         tb = boundaries(data)
